@@ -218,6 +218,34 @@ def check_driver(model, rep, rule):
     ok = rng == (1, 1) and not jumps
     # initial worklist per direction
     pre = fi.node.body[:fi.node.body.index(lp)]
+    # `wl = <empty>` followed by one guarded `wl.append(x)` / `wl.extend(S)` is
+    # the initialisation `wl = [x]` / `wl = list(S)`
+    def _empty(v):
+      return (isinstance(v, (ast.List, ast.Tuple)) and not v.elts) or (
+          isinstance(v, ast.Call) and core.dotted(v.func) in (
+              'list', 'collections.deque', 'deque') and not v.args and not v.keywords)
+    empties = [st for st in pre if isinstance(st, ast.Assign) and len(st.targets) == 1 and
+               core.norm(st.targets[0]) == wl_name and _empty(st.value)]
+    if len(empties) == 1:
+      import copy as _copy
+
+      class _Fill(ast.NodeTransformer):
+        def visit_Expr(self, st):
+          c = st.value
+          if isinstance(c, ast.Call) and isinstance(c.func, ast.Attribute) and \
+              core.norm(c.func.value) == wl_name and len(c.args) == 1 and not c.keywords:
+            if c.func.attr == 'append':
+              v = ast.List(elts=[c.args[0]], ctx=ast.Load())
+            elif c.func.attr == 'extend':
+              v = ast.Call(func=ast.Name(id='list', ctx=ast.Load()), args=[c.args[0]],
+                           keywords=[])
+            else:
+              return st
+            return ast.fix_missing_locations(ast.copy_location(ast.Assign(
+                targets=[ast.Name(id=wl_name, ctx=ast.Store())], value=v), st))
+          return st
+      after = pre[pre.index(empties[0]) + 1:]
+      pre = [_Fill().visit(_copy.deepcopy(st)) for st in after]
     init = _guarded_values(fi, pre, wl_name, mode_atom)
     facts['initial'] = [(str(f), core.norm(v)) for f, v in init]
 
